@@ -211,7 +211,7 @@ def ref(e):
 
 def strip_sites(e):
     """drop call-site block numbers and local numbers so two expressions can be compared"""
-    if not isinstance(e, tuple):
+    if not isinstance(e, tuple) or not e:
         return e
     if e[0] == "call":
         return ("call", e[1], tuple(strip_sites(a) for a in e[2]))
@@ -224,9 +224,9 @@ def strip_sites(e):
 
 def strip_refs(e):
     """remove ref/deref layers everywhere (value identity modulo borrowing)"""
-    if not isinstance(e, tuple):
+    if not isinstance(e, tuple) or not e:
         return e
-    if e[0] in ("ref", "deref"):
+    if e[0] in ("ref", "deref") and len(e) == 2:
         return strip_refs(e[1])
     return tuple(strip_refs(x) for x in e)
 
